@@ -29,7 +29,45 @@ void *vrec_memset(void *d, int c, size_t n);
 #define silk_memmove(d, s, n) vrec_memmove((d), (s), (n))
 #define silk_memset(d, c, n) vrec_memset((d), (c), (n))
 
+void vrec_note(const void *p, long bytes, int wr);
+void vrec_phase(int ph);
+
 #define silk_LPC_analysis_filter verif_LPC_analysis_filter
 #include "LPC_analysis_filter.c"
 #define silk_decode_core verif_decode_core
 #include "decode_core.c"
+#undef silk_decode_core
+
+/* ---- the rest of silk_decode_frame: PLC, CNG, the frame function itself.  Small library helpers that touch the
+   recorded arrays are compiled here too (silk_sum_sqr_shift, silk_bwexpander); silk_LPC_inverse_pred_gain_c and
+   silk_NLSF2A stay library calls behind shims that note the `order` coefficients they read / write. */
+#define silk_sum_sqr_shift verif_sum_sqr_shift
+#include "sum_sqr_shift.c"
+#define silk_bwexpander verif_bwexpander
+#include "bwexpander.c"
+#define silk_LPC_inverse_pred_gain_c(A, o) (vrec_note((A), (long)(o) * 2, 0), (silk_LPC_inverse_pred_gain_c)((A), (o)))
+#define silk_NLSF2A(a, n, d, arch) (vrec_note((n), (long)(d) * 2, 0), vrec_note((a), (long)(d) * 2, 1), (silk_NLSF2A)((a), (n), (d), (arch)))
+#define silk_PLC_Reset verif_PLC_Reset
+#define silk_PLC verif_PLC
+#define silk_PLC_glue_frames verif_PLC_glue_frames
+#include "PLC.c"
+#define silk_CNG_Reset verif_CNG_Reset
+#define silk_CNG verif_CNG
+#include "CNG.c"
+#undef silk_PLC
+#undef silk_CNG
+#undef silk_PLC_glue_frames
+/* phase markers around the calls made by silk_decode_frame: 1 core, 2 plc, 3 top (the frame function itself), 4 cng, 5 glue */
+#define silk_decode_core(a, b, c, d, e) (vrec_phase(1), verif_decode_core((a), (b), (c), (d), (e)), vrec_phase(3))
+#define silk_PLC(a, b, c, d, e) (vrec_phase(2), verif_PLC((a), (b), (c), (d), (e)), vrec_phase(3))
+#define silk_CNG(a, b, c, d) (vrec_phase(4), verif_CNG((a), (b), (c), (d)), vrec_phase(3))
+#define silk_PLC_glue_frames(a, b, c) (vrec_phase(5), verif_PLC_glue_frames((a), (b), (c)), vrec_phase(3))
+/* the bit-stream side of a good frame is scripted by the driver */
+void vstub_decode_indices(silk_decoder_state *psDec, ec_dec *psRangeDec, opus_int FrameIndex, opus_int decode_LBRR, opus_int condCoding);
+void vstub_decode_pulses(ec_dec *psRangeDec, opus_int16 pulses[], const opus_int signalType, const opus_int quantOffsetType, const opus_int frame_length);
+void vstub_decode_parameters(silk_decoder_state *psDec, silk_decoder_control *psDecCtrl, opus_int condCoding);
+#define silk_decode_indices vstub_decode_indices
+#define silk_decode_pulses vstub_decode_pulses
+#define silk_decode_parameters vstub_decode_parameters
+#define silk_decode_frame verif_decode_frame
+#include "decode_frame.c"
